@@ -142,7 +142,11 @@ theorem c12_inert_crlf (rx : E.RuleExt) (id : Int) (lines : List Bytes)
   E.scanAccepted_crlf rx id lines hcr
 
 /-- Any result computed from the accepted rules (engine construction + query, abstractly a function
-    `results`) is unchanged by noise insertion and by CRLF endings. -/
+    `results`) is unchanged by noise insertion and by CRLF endings.  NOTE: this is only a congruence of
+    `filterMap` over an ARBITRARY `results` -- it mentions no engine.  The engine-level statements (from
+    the bytes of the lists to `MatchAll`, the DNS result and the cosmetic selectors) are in
+    Props/C12Engine.lean (`c12_engine_insert`, `c12_engine_crlf`), composed from `c01_storage`,
+    `c02_storage`, `c15_storage`. -/
 theorem c12_inert {α} (results : List Rule → α) (rx : E.RuleExt) (id : Int) (lines : List Bytes)
     (keep : Bytes → Bool) (h : ∀ l ∈ lines, keep l = false → E.acceptedOf rx id l = none)
     (hcr : ∀ l, rx.trim (l ++ [13]) = rx.trim l) :
